@@ -88,6 +88,11 @@ func Execute(spec RunSpec) (res *Result, reusable bool) {
 		seen := map[string]bool{}
 		for _, e := range s.Events() {
 			switch e.Kind {
+			case "nested-release-not-held":
+				if !seen[e.Kind] {
+					seen[e.Kind] = true
+					s.Violate("release-not-held", "while serving request %d the library released a %s it had borrowed from the provider for its own use twice (or never acquired it)", e.Req, e.S)
+				}
 			case "foreign-writer-use", "foreign-body-use":
 				if !seen[e.Kind] {
 					seen[e.Kind] = true
